@@ -498,11 +498,18 @@ def _weakly_type_python_scalars(
     return tuple(out)
 
 
+def _view_family(tensor: "Tensor") -> List["Tensor"]:
+    """Returns ``tensor`` and all of its (nested) views."""
+    family = [tensor]
+    for child in tensor._view_children:
+        family.extend(_view_family(child))
+    return family
+
+
 def _null_grads_of_view_family(tensor: "Tensor"):
     """Nulls the gradient of ``tensor`` and of all of its (nested) views."""
-    tensor.null_grad()
-    for child in tensor._view_children:
-        _null_grads_of_view_family(child)
+    for member in _view_family(tensor):
+        member.null_grad()
 
 
 class Tensor:
@@ -1197,13 +1204,13 @@ class Tensor:
                     or (op_out is parent_data)
                 ):
                     if parent_var._base is not None and parent_var._creator is None:
-                        if parent_var.grad is None:
-                            # its gradient was invalidated through its base; don't
-                            # let the stale value reappear once the base is dropped
-                            parent_var._grad = None
-                        parent_var._base = None
-
-                    base = parent_var if parent_var.base is None else parent_var.base
+                        # The parent's graph has been cleared, but its base lingers.
+                        # The base is dropped below, once the result has been accepted
+                        base = parent_var
+                    else:
+                        base = (
+                            parent_var if parent_var.base is None else parent_var.base
+                        )
                     break
             else:
                 parent_var = None
@@ -1745,6 +1752,17 @@ class Tensor:
         # These placeholder tensors are never publicly-available and thus cannot
         # be involved directly in future in-place updates
 
+        # The preparations below discard gradient and view information. If the
+        # update is refused, everything must be as it was: remember what is discarded
+        # (a view whose graph was cleared is no longer listed by its base)
+        _undo = [
+            (t, t._grad, t._view_grad, t._base)
+            for t in (
+                *_view_family(self),
+                *_view_family(self if self.base is None else self.base),
+            )
+        ]
+
         # In Tensor._op, any tensor entering an op has its grad/view-info cleared
         # We must do this here up front since we need to consume information
         # about ``self``
@@ -1806,6 +1824,8 @@ class Tensor:
                 )
         except Exception as e:
             graph.restore_old_graph()
+            for t, _t_grad, _t_view_grad, _t_base in _undo:
+                t._grad, t._view_grad, t._base = _t_grad, _t_view_grad, _t_base
             raise e
 
         placeholder_mutant_view._constant = inplace_target._constant
